@@ -149,6 +149,10 @@ type Sched struct {
 	SuspendTimers bool
 	// YieldAfterUnlock makes the release of an exclusive lock a scheduling point as well.
 	YieldAfterUnlock bool
+	// YieldAfterSelect makes the moment a select statement of the library has fired (a channel
+	// operation completed, the clause body not yet begun) a scheduling point: what the woken
+	// goroutine does with state it reads next is ordered against the other threads.
+	YieldAfterSelect bool
 	envSinceSuspend  int
 	// AtomicsArePoints makes the vatomic shim (if linked) yield at atomics.
 	AtomicsArePoints bool
@@ -949,4 +953,15 @@ func CovDump() []int {
 		}
 	}
 	return out
+}
+
+
+// AfterSelect is called at the start of every communication clause of the library's select
+// statements (inserted by mkoverlay).
+func AfterSelect() {
+	s := Active()
+	if s == nil || !s.YieldAfterSelect {
+		return
+	}
+	s.Point(OpYield, "after-select", nil, nil)
 }
